@@ -500,3 +500,65 @@ for _w, _fn in (("deviation", "verif.metric.PitHistDev.deviation"), ("dev", "ver
     register(Obligation(_fn + "#POST:definition", ("C08",), s, c, p, modules=MOD, functions=[_fn],
                         assumptions=["np.histogram(values, edges): count per bin [e_k, e_k+1), last bin closed (assumed contract)",
                                      "bin edges are NumPy's linspace(0,1,11) as binary floating-point numbers, in the code and in the definition alike"]))
+
+
+# ------------------------------------------------------------------ PIT randomisation at discrete masses (field.Pit.randomize; bounded: random numbers)
+def _pit_randomize():
+    def body():
+        import random
+        import verif.field
+        rnd = random.Random(int(os.environ.get("VERIF_SEED", "0")) + 23)
+        cases = 0
+        for rep in range(300):
+            n = rnd.randint(1, 6)
+            shape = rnd.choice([(n,), (1, n, 1), (2, 1, n)])
+            size = int(_np.prod(shape))
+            x0, x1 = rnd.choice([(0.0, None), (None, 100.0), (0.0, 100.0), (None, None)])
+            obs = _np.array([rnd.choice([0.0, 100.0, 3.5, 42.0]) for _ in range(size)]).reshape(shape)
+            pit = _np.array([rnd.choice([0.0, 0.3, 0.5, 0.999, 1.0]) for _ in range(size)]).reshape(shape)
+            obs0, pit0 = obs.copy(), pit.copy()
+            out = _np.asarray(verif.field.Pit.randomize(obs, pit, x0, x1), float)
+            cases += 1
+            prob = None
+            if not (_np.array_equal(obs, obs0) and _np.array_equal(pit, pit0)):
+                prob = "the arrays handed in were modified (the stored PIT values of the input object)"
+            else:
+                for i in _np.ndindex(*shape):
+                    o, p, r = obs0[i], pit0[i], out[i]
+                    at0, at1 = (x0 is not None and o == x0), (x1 is not None and o == x1)
+                    if not at0 and not at1 and abs(r - p) > 1e-12:      # (1 - (1 - p) differs from p by rounding)
+                        prob = "a PIT value away from the discrete masses was changed"
+                    elif at0 and not at1 and not (0 <= r <= p + 1e-12):
+                        prob = "at the lower mass the randomised PIT must lie in [0, PIT]"
+                    elif at1 and not at0 and not (p - 1e-12 <= r <= 1):
+                        prob = "at the upper mass the randomised PIT must lie in [PIT, 1]"
+                    if prob:
+                        break
+            if prob:
+                return cases, {"problem": prob, "obs": obs0.tolist(), "pit": pit0.tolist(), "x0": x0, "x1": x1, "pit-after": pit.tolist(), "returned": out.tolist()}
+        return cases, None
+    return body
+
+
+from .axis import _enumerated as _enum_pit
+import os
+_enum_pit("verif.field.Pit.randomize#BOUNDED:only-cases-at-a-discrete-mass-are-randomised,within-their-interval,arguments-not-modified", ("C08", "C18"),
+          "300 seeded random obs/PIT arrays (1-d and 3-d, 1..6 cases) x discrete masses {x0=0, x1=100, both, none}",
+          _pit_randomize(), ["verif.field.Pit.randomize"])
+
+
+def _pit_repeatable():
+    def body():
+        import verif.field
+        obs = _np.array([0.0, 3.5, 0.0, 7.0]); pit = _np.array([0.4, 0.5, 0.9, 0.2])
+        a = _np.asarray(verif.field.Pit.randomize(obs.copy(), pit.copy(), 0.0, None), float)
+        b = _np.asarray(verif.field.Pit.randomize(obs.copy(), pit.copy(), 0.0, None), float)
+        if not _np.array_equal(a, b):
+            return 1, {"obs": obs.tolist(), "pit": pit.tolist(), "x0": 0.0, "first-call": a.tolist(), "second-call": b.tolist(),
+                       "want": "the same request on the same data gives the same values"}
+        return 1, None
+    return body
+
+
+_enum_pit("verif.field.Pit.randomize#BOUNDED:the-same-request-twice-gives-the-same-values", ("C18",),
+          "one input: obs=[0, 3.5, 0, 7], PIT=[0.4, 0.5, 0.9, 0.2], lower discrete mass x0=0, two calls", _pit_repeatable(), ["verif.field.Pit.randomize"])
